@@ -97,7 +97,13 @@ def gen_spec(seed, tier):
             stride = strides[rl]
             base_stride = 2 ** (nlev - 1) * 4
             its[rl] = list(range(start, start + length * base_stride + 1, stride))
-        restarts.append(dict(its=its, rtag=r + 1))
+        rs = dict(its=its, rtag=r + 1)
+        if rng.random() < 0.5:
+            # checkpoints with real data (two time levels) at output iterations
+            pool = its[0]
+            rs['checkpoints'] = sorted({int(v) for v in rng.choice(pool, int(rng.integers(1, 3)))})
+            rs['chk_proc'] = bool(rng.random() < 0.5)
+        restarts.append(rs)
         back = int(rng.integers(0, length + 1))          # overlap with the next restart
         start = start + (length - back) * (2 ** (nlev - 1) * 4)
     grouped = bool(rng.random() < 0.5)
@@ -110,7 +116,7 @@ def gen_spec(seed, tier):
     return dict(simname=f'sim{seed}', vars=vars_, levels=levels, restarts=restarts,
                 layout=layout, grouped=grouped,
                 m0=bool(rng.random() < 0.3), xyz=bool(rng.random() < 0.3),
-                custom_group=custom, par=None)
+                custom_group=custom, par=None, chk_data=True)
 
 
 def cases(tier, sd):
@@ -219,6 +225,73 @@ def check_read(res, A, param, spec, rng):
             res['nontrivial'].append(tags)
 
 
+def check_checkpoints(res, A, param, spec, rng):
+    """usecheckpoints=True: data of time level 0 of the checkpoint files."""
+    cps = {}
+    for r, rs in enumerate(spec['restarts']):
+        for c in rs.get('checkpoints', []):
+            cps[c] = r                      # the latest restart holding it wins
+    if not cps:
+        return
+    its = sorted(cps)
+    req = [int(v) for v in rng.choice(its, int(rng.integers(1, len(its) + 1)), replace=False)]
+    for rl in spec['levels']:
+        want, tensor = aurel_request(rng, spec)
+        product = etgen.is_product(spec['levels'][rl]['boxes'])
+        tags = tagset(spec, rl) + ['checkpoint', 'chk-proc' if any(
+            rs.get('chk_proc') for rs in spec['restarts']) else 'chk-onefile']
+        res['observations'] += 1
+        try:
+            with common.Quiet():
+                data = A.read_data(param, it=list(req), vars=list(want), rl=rl, restart=-1,
+                                   usecheckpoints=True, split_per_it=False, skip_last=False,
+                                   verbose=False)
+        except Exception as e:
+            if product:
+                common.add_violation(res, f"read_data(usecheckpoints=True) raises {type(e).__name__}",
+                                     {"err": repr(e)[:300], "tags": tags, "req": req,
+                                      "checkpoints": {str(k): v for k, v in cps.items()}})
+            continue
+        got_its = [int(i) for i in data['it']]
+        if sorted(got_its) != sorted(set(req)):
+            common.add_violation(res, "checkpoint read: 'it' column differs from the request",
+                                 {"req": req, "got": got_its, "tags": tags})
+            continue
+        if [float(t) for t in data['t']] != [etgen.time_of(i) for i in got_its]:
+            common.add_violation(res, "checkpoint read: 't' column does not match",
+                                 {"it": got_its, "t": [float(t) for t in data['t']]})
+            continue
+        inv = {etgen.aurel_name(v): v for v in spec['vars']}
+        comp = []
+        for w in want:
+            comp += etgen.TENSORS.get(w, [w])
+        ok = True
+        for cname in comp:
+            if cname not in data or len(data[cname]) != len(got_its):
+                common.add_violation(res, "checkpoint read: variable column missing or of wrong length",
+                                     {"var": cname, "keys": list(data.keys())})
+                ok = False
+                break
+            for j, it in enumerate(got_its):
+                exp = etgen.truth(inv[cname], it, rl, spec['restarts'][cps[it]]['rtag'],
+                                  spec['levels'][rl]['shape'])
+                got = np.asarray(data[cname][j])
+                res['observations'] += 1
+                if got.shape != exp.shape or not np.array_equal(got, exp):
+                    why = "shape" if got.shape != exp.shape else (
+                        "other time level" if np.all(got - exp == 7.0e6) else
+                        classify(got, exp, spec, inv[cname], it, rl))
+                    common.add_violation(res, f"checkpoint read returns wrong data ({why})",
+                                         {"var": cname, "it": it, "rl": rl, "tags": tags})
+                    ok = False
+                    break
+            if not ok:
+                break
+        if ok:
+            res['nontrivial'].append(tags)
+            res['monitor']['checkpoint_reads'] = res['monitor'].get('checkpoint_reads', 0) + 1
+
+
 def classify(got, exp, spec, var, it, rl):
     """Say what kind of wrong data came back (decoded from the truth function)."""
     d = got - exp
@@ -277,6 +350,7 @@ def run_case(spec0):
         check_join(res, A, spec, rng)
         for _ in range(2):
             check_read(res, A, param, spec, rng)
+        check_checkpoints(res, A, param, spec, rng)
         # explicit restart request: data must come from that restart
         r = int(rng.integers(len(spec['restarts'])))
         rs = spec['restarts'][r]
